@@ -90,7 +90,11 @@ def r04_2(ctx):
                            "same arguments; IntegratePlanar.area = vertical(curve, 1, 0, nnodes)", floor=5)
     for name, extra in (("vertical", (3, 2, 9)), ("polynomial", (0, 0, 9)), ("lenght", (9,)), ("area", (9,))):
         fn = ctx.fn(f"jordancurve.IntegrateJordan.{name}")
-        segs = [Obj("s0"), Obj("s1"), Obj("s2")]
+        # straight and curved pieces mixed: every one of them must go through the same per-segment integral
+        from rules.C14 import Vec
+        segs = [Obj("s0", degree=1, npts=2, ctrlpoints=(Vec(0, 0), Vec(4, 1))),
+                Obj("s1", degree=2, npts=3, ctrlpoints=(Vec(4, 1), Vec(5, 5), Vec(2, 6))),
+                Obj("s2", degree=1, npts=2, ctrlpoints=(Vec(2, 6), Vec(0, 0)))]
         J = Obj("J", segments=tuple(segs))
         vals = {"s0": Fr(2), "s1": Fr(3), "s2": Fr(5)}
         calls = []
